@@ -802,8 +802,9 @@ def main():
     os.environ["VERIF_CUR_TIER"] = args.tier
     if not os.environ.get("VERIF_SHUF_FUNCS"):
         many = args.prop in ("C01", "C05")
-        os.environ["VERIF_SHUF_FUNCS"] = (("6000" if many else "800") if args.tier == "thorough"
-                                          else ("800" if many else "150"))
+        os.environ["VERIF_SHUF_FUNCS"] = (
+            ({"C01": "6000", "C05": "2000"}.get(args.prop, "800")) if args.tier == "thorough"
+            else ("800" if many else "150"))
     if args.prop == "C07":
         import c07
         return c07.main(args)
